@@ -1995,6 +1995,12 @@ impl<'a> Socket<'a> {
                 self.remote_win_scale = repr.window_scale;
                 // Remote doesn't support window scaling, don't do it.
                 if self.remote_win_scale.is_none() {
+                    // The window we advertised in our SYN was recorded in scaled units; without
+                    // scaling the units are octets again.
+                    self.remote_last_win = u16::try_from(
+                        (self.remote_last_win as usize) << self.remote_win_shift,
+                    )
+                    .unwrap_or(u16::MAX);
                     self.remote_win_shift = 0;
                 }
                 // Remote doesn't support timestamping, don't do it.
@@ -2437,11 +2443,9 @@ impl<'a> Socket<'a> {
     /// <https://elixir.bootlin.com/linux/v6.9.9/source/net/ipv4/tcp.c#L1472>.
     fn window_to_update(&self) -> bool {
         match self.state {
-            State::SynSent
-            | State::SynReceived
-            | State::Established
-            | State::FinWait1
-            | State::FinWait2 => {
+            // (A SYN cannot carry a window update: its window field is not scaled, so retransmitting
+            // it would advertise the very same window.)
+            State::Established | State::FinWait1 | State::FinWait2 => {
                 let new_win = self.scaled_window();
                 if let Some(last_win) = self.last_scaled_window() {
                     new_win > 0 && new_win / 2 >= last_win
@@ -2827,7 +2831,14 @@ impl<'a> Socket<'a> {
             .remote_last_seq
             .max(repr.seq_number + repr.segment_len());
         self.remote_last_ack = repr.ack_number;
-        self.remote_last_win = repr.window_len;
+        // `remote_last_win` is kept in the (scaled) units of the window field of non-SYN segments,
+        // because `process()` shifts it by `remote_win_shift` to find the edge of the window we
+        // advertised. The window field of a SYN is never scaled, so convert it.
+        self.remote_last_win = if repr.control == TcpControl::Syn {
+            repr.window_len >> self.remote_win_shift
+        } else {
+            repr.window_len
+        };
 
         if repr.segment_len() > 0 {
             self.rtte
